@@ -5,6 +5,8 @@
   driver.py replay <replay-file>
   driver.py selftest determinism [scenario ...]
   driver.py selftest instrumenter
+  driver.py selftest constructs
+  driver.py selftest corpus
 
 Exit codes: 0 property held on everything explored; 1 violation (VIOLATION line
 printed); 2 build / watchdog / harness trouble (never a verdict).
@@ -197,6 +199,10 @@ def _check(prop, tier, seed, scr, t0):
     violations, known_hits, trouble = [], {}, []
     seen_rule = {}
     for f in failures:
+        if f["rule"] == "harness":
+            # the harness itself reports trouble (setup failed, corpus item not accepted): never a verdict
+            trouble.append("harness trouble in %s run %d: %s" % (f["scenario"], f["run"], f["msg"][:300]))
+            continue
         kf = known_match(known, prop, f["rule"], f["msg"])
         if kf is not None:
             known_hits.setdefault(kf.get("id", f["rule"]), (kf, f))
@@ -378,6 +384,25 @@ def selftest_instrumenter():
         shutil.rmtree(scr, ignore_errors=True)
 
 
+def selftest_corpus():
+    """Every hand-encoded corpus variant of the C08 scenario must be accepted by the library's decoders."""
+    scr = scratch_dir()
+    try:
+        build(scr)
+        out = os.path.join(scr, "corpus.json")
+        env = dict(ENV, DSIM_MODE="corpus-check", DSIM_OUT=out, GOMAXPROCS="1")
+        r = subprocess.run([os.path.join(scr, "sim.test"), "-test.run", "^TestSim$"], env=env, cwd=scr, stdout=subprocess.PIPE, stderr=subprocess.STDOUT, text=True)
+        if r.returncode != 0 or not os.path.exists(out):
+            print(r.stdout[-3000:]); return 2
+        bad = json.load(open(out))["failures"] or []
+        for b in bad:
+            print("corpus: " + b)
+        print("corpus: %s" % ("ok" if not bad else "FAILED"))
+        return 0 if not bad else 2
+    finally:
+        shutil.rmtree(scr, ignore_errors=True)
+
+
 def selftest_constructs():
     """Differential self-test of instrumenter + runtime on dsim/constructs (every rewritten construct)."""
     scr = scratch_dir()
@@ -420,6 +445,8 @@ def main():
         sys.exit(selftest_determinism(a[2:]))
     if len(a) == 2 and a[0] == "selftest" and a[1] == "instrumenter":
         sys.exit(selftest_instrumenter())
+    if len(a) == 2 and a[0] == "selftest" and a[1] == "corpus":
+        sys.exit(selftest_corpus())
     if len(a) == 2 and a[0] == "selftest" and a[1] == "constructs":
         sys.exit(selftest_constructs())
     print(__doc__)
